@@ -879,12 +879,9 @@ func utf16Len(s string) int {
 }
 
 func isValidTagName(name string) bool {
+	// letters of any script, digits, '-' and '_': the rule the semantic tokens use
 	for _, r := range name {
-		isLower := r >= 'a' && r <= 'z'
-		isUpper := r >= 'A' && r <= 'Z'
-		isDigit := r >= '0' && r <= '9'
-		isSpecial := r == '-' || r == '_'
-		if !isLower && !isUpper && !isDigit && !isSpecial {
+		if !unicode.IsLetter(r) && !unicode.IsDigit(r) && r != '-' && r != '_' {
 			return false
 		}
 	}
